@@ -30,6 +30,15 @@ for d in sorted(glob.glob(os.path.join(V, "seeded", "C*-*"))):
     try: m = json.load(open(os.path.join(d, "meta.json")))
     except Exception: m = {}
     r = res.get(sid, {})
+    conf = m.get("confirmed")
+    if not conf:
+        try:
+            last = [l for l in open(os.path.join(d, "confirm.log")) if l.startswith("RESULT")][-1]
+            ok = "demo_without=0(" in last and "demo_with=0(" not in last and "suite_same_as_baseline=0(" in last
+            conf = "yes" if ok else "see confirm.log"
+        except Exception:
+            conf = "not yet"
+    m["confirmed"] = conf
     verdicts = []
     for k, v in sorted(r.items()):
         if isinstance(v, dict) and "caught" in v:
